@@ -351,7 +351,7 @@ func (s *nodePrivilegedService) InjectGovernanceVAA(ctx context.Context, req *no
 		case *nodev1.GovernanceMessage_UpdateRefundAddress:
 			v, err = tokenBridgeUpdateRefundAddress(s.governanceChainId, s.governanceEmitterAddress, payload.UpdateRefundAddress, timestamp, req.CurrentSetIndex, message.Nonce, message.Sequence, targetChainId)
 		default:
-			panic(fmt.Sprintf("unsupported VAA type: %T", payload))
+			return nil, status.Error(codes.InvalidArgument, fmt.Sprintf("unsupported VAA type: %T", payload))
 		}
 		if err != nil {
 			return nil, status.Error(codes.InvalidArgument, err.Error())
